@@ -96,6 +96,7 @@ package influxql
 //@   requires p != nil
 //@   ensures pos.Line == dynres(fn, 1).Line && pos.Char == dynres(fn, 1).Char
 //@   ensures dynres(fn, 0) != BOUNDPARAM ==> tok == dynres(fn, 0) && lit == dynres(fn, 2)
+//@   ensures [C07] @emptyname (dynres(fn, 0) == BOUNDPARAM && len(libcall("strings.TrimPrefix", dynres(fn, 2), "$")) == 0) ==> (tok == BOUNDPARAM && lit == dynres(fn, 2))
 //@   ensures p.params == old(p.params) && p.s == old(p.s)
 
 // bound values are never nil interfaces: SetParams stores BindValue results only
